@@ -21,4 +21,6 @@ P_Orientation == /\ Oriented(m, Pos)                                       \* th
                  /\ \A f \in 1..Len(R.repaired) : SameCyc(m.tri[f - 1], R.repaired[f])
                  /\ R.normals_ok
 P_LongestAxis == R.axis_ok
+\* the quantities do not depend on how the surface is stored (unused slots inside the lists, compaction)
+P_History     == R.hist_ok
 =============================================================================
